@@ -17,7 +17,9 @@ def one(ctx, data, meta=None, opts=pk.OPTS):
     good = True
     # the hypothesis of C13_part_total, evaluated by the Lean model on the parts as they are walked
     v = ctx.drv.ask({**pk.model_case(data, False, True)[0], 'op': 'valid'})
+    pkgvalid = v.pop('<package>', None) is True if isinstance(v, dict) else False
     allvalid = all(isinstance(x, dict) and x.get('ok') is True for x in v.values()) if isinstance(v, dict) and 'err' not in v else False
+    ctx.count('validPkg holds (hypothesis of C13_package_total)' if pkgvalid else 'validPkg false')
     ctx.count('validT holds for every content part' if allvalid else 'validT false for some part')
     for html, dup, i, m in observe(ctx, data, opts):
         case = case_payload(data, html=html, dup=dup)
